@@ -444,6 +444,17 @@ func runC14(c *Ctx) error {
 				}
 				e = cands[c.Rng.IntN(len(cands))]
 			}
+			if e.kind == "wait" {
+				// time passes (more than any retry interval of a second, far less than the 30 s expiry); not an
+				// event of the model: nothing may change
+				before := k.observe()
+				time.Sleep(1100 * time.Millisecond)
+				if after := k.observe(); after != before {
+					c.Violate("the key-setup state changed while nothing happened", "kx-changed-while-waiting", map[string]any{"schedule": trace})
+				}
+				trace = append(trace, "wait(1.1s)")
+				continue
+			}
 			if e.kind == "clear" {
 				k.clears[b2i(e.x)] = true
 			}
@@ -526,6 +537,19 @@ func runC14(c *Ctx) error {
 			{kind: "deliver", x: x, i: 0}, {kind: "deliver", x: !x, i: 0}, {kind: "deliver", x: !x, i: 0}}, 7, "late-response-after-retry"); err != nil {
 			return err
 		}
+	}
+	// a slow response: the initiator's next packet for the same destination arrives more than a second
+	// after its request went out (the request is still pending: nothing new may be sent), then the
+	// response arrives; and the same with the request itself being slow
+	for _, x := range []bool{true, false} {
+		if err := runSchedule(false, []kxEv{{kind: "start", x: x}, {kind: "deliver", x: x, i: 0}, {kind: "wait"}, {kind: "start", x: x},
+			{kind: "deliver", x: x, i: 0}, {kind: "deliver", x: !x, i: 0}, {kind: "deliver", x: !x, i: 0}}, 7, "slow-response"); err != nil {
+			return err
+		}
+	}
+	if err := runSchedule(false, []kxEv{{kind: "start", x: true}, {kind: "wait"}, {kind: "start", x: true}, {kind: "deliver", x: true, i: 0},
+		{kind: "deliver", x: true, i: 0}, {kind: "deliver", x: false, i: 0}, {kind: "deliver", x: false, i: 0}}, 7, "slow-request"); err != nil {
+		return err
 	}
 	// the model's refutation witness (Coq: d19_history) on the real routers
 	if err := runSchedule(true, []kxEv{{kind: "start", x: true}, {kind: "start", x: false}, {kind: "deliver", x: true, i: 0}, {kind: "drop", x: false, i: 1},
